@@ -324,7 +324,7 @@ func (g *G) litFor(cands xref.NodeSet, p xast.Expr, pool []string, numeric bool)
 					break
 				}
 				sv := xdoc.StringValue(n)
-				if len(sv) > 12 || seen[sv] || (g.NoQuotes && containsQuote(sv)) || (strings.Contains(sv, "'") && strings.Contains(sv, "\"")) {
+				if len(sv) > 24 || seen[sv] || (g.NoQuotes && containsQuote(sv)) || (strings.Contains(sv, "'") && strings.Contains(sv, "\"")) {
 					continue
 				}
 				if numeric && !xref.IsXPathNumber(sv) {
